@@ -226,6 +226,7 @@ type execStats struct {
 	cellsCompared, shows, syncs, resizes, controls, unknownControls, textRunes int64
 	unknown                                                                    map[string]int
 	hyperlinkLeftOpen                                                          int64
+	grammarErrors                                                              int64
 }
 
 // execHistory runs one draw history on a fresh real screen over the fake tty
@@ -306,11 +307,20 @@ func execHistory(se *session, w, h int, ops []shadow.Op, eo execOpts) *viol {
 	}
 	trick := se.ti.AutoMargin && se.ti.DisableAutoMargin == "" && se.ti.InsertChar != ""
 	check := func(what string, full bool) *viol {
-		if len(term.Errors) > 0 {
-			return &viol{"C09", errClass(term.Errors[0]), fmt.Sprintf("%s: %s (%d problem(s))", what, term.Errors[0], term.NErrors)}
-		}
-		if !term.InGround() {
-			return &viol{"C09", "incomplete-sequence", what + ": the output ends inside a control sequence or multi-byte character"}
+		if eo.props["C09"] {
+			if len(term.Errors) > 0 {
+				return &viol{"C09", errClass(term.Errors[0]), fmt.Sprintf("%s: %s (%d problem(s))", what, term.Errors[0], term.NErrors)}
+			}
+			if !term.InGround() {
+				return &viol{"C09", "incomplete-sequence", what + ": the output ends inside a control sequence or multi-byte character"}
+			}
+		} else if len(term.Errors) > 0 {
+			// malformed output is C09's business; the reference terminal has done what a
+			// conforming terminal does with it (ignored it) and the display is judged as it is
+			if eo.stats != nil {
+				eo.stats.grammarErrors += int64(term.NErrors)
+			}
+			term.Errors, term.NErrors = nil, 0
 		}
 		if errs, _, _ := ft.Snapshot(); len(errs) > 0 && eo.props["C04"] {
 			return &viol{"C04", "tty-contract", what + ": " + errs[0]}
